@@ -148,3 +148,39 @@ func VH_C14_no_handler() {
 	zzverif.Assert(len(f.failed) == 2, "logging continues after failures without an ErrorHandler")
 	zzverif.Reach("C14/no-handler")
 }
+
+// Events whose finalizer does not return normally (Panic): the write error is still routed to
+// ErrorHandler exactly once, and the next event is unaffected.
+func VH_C14_panic_entry() {
+	f := &vFaulty{id: 0, err: errors.New("dest")}
+	var handled []error
+	ErrorHandler = func(err error) { handled = append(handled, err) }
+	var l Logger
+	if zzverif.Choice(2) == 0 {
+		l = New(MultiLevelWriter(f))
+	} else {
+		l = New(MultiLevelWriter(f, &vFaulty{id: 1, err: errors.New("dest2")}))
+	}
+	vSeq = nil
+	panicked := false
+	func() {
+		defer func() {
+			if recover() != nil {
+				panicked = true
+			}
+		}()
+		l.Panic().Str("j", "v").Msg("boom")
+	}()
+	zzverif.Assert(panicked, "Panic() panics after the event was written")
+	zzverif.Assert(len(f.gotErr) == 1, "the panic-level event reaches the destination once")
+	if f.gotErr[0] != nil {
+		zzverif.Assert(len(handled) == 1, "ErrorHandler invoked exactly once for a panic-level event whose write failed")
+		zzverif.Assert(len(handled) == 1 && handled[0] == f.gotErr[0], "ErrorHandler receives the first failing destination's error (panic-level event)")
+	} else if len(vSeq) == 1 {
+		zzverif.Assert(len(handled) == 0, "ErrorHandler not invoked when every destination succeeded (panic-level event)")
+	}
+	n0 := len(f.gotErr)
+	l.Info().Msg("next")
+	zzverif.Assert(len(f.gotErr) == n0+1, "the event after a failed panic-level event is written")
+	zzverif.Reach("C14/panic-entry")
+}
